@@ -86,6 +86,19 @@ impl<E: Entry> Live<E> {
         }
     }
 
+    /// Feeds `vals` to the auxiliary region from which the "read item of another region" form
+    /// takes its items, so that this other region is not just a subset of what `self.r` holds
+    /// (wider rows, other offsets, more columns than the receiver).
+    pub fn prefill_aux(&mut self, vals: &[E::V]) {
+        let aux = &mut self.aux;
+        let _ = panics::catch(|| {
+            let mut dummy = E::R::default();
+            for v in vals {
+                let _ = E::push(aux, v, 0, &mut dummy);
+            }
+        });
+    }
+
     pub fn nforms() -> usize {
         E::form_names().len()
     }
